@@ -31,7 +31,7 @@ PROPS = {
         title="every task execution justified, exactly once",
         theorems={NEXT: ["C01_offer_from_staged", "C01_no_offer_unless_running_or_remediation"], JOIN: ["C07_ready_iff_satisfied"], HISTORY: ["C18_record_core_fixed"]},
         keys=["status", "sequence", "staged", "tasks"], offers="ids",
-        prof=dict(p_items=0.0, p_retry=0.0, p_badexpr=0.0), hist=dict(p_fail=0.3, fixed_outcomes=True),
+        prof=dict(p_items=0.0, p_retry=0.0, p_badexpr=0.0, p_join=0.9, p_join_count=0.1, p_loop=0.05, p_parallel_edge=0.05), hist=dict(p_fail=0.3, fixed_outcomes=True),
         monitor="C01", unproven=["global multiset equality with the prescribed executions (C01_global) is not proved; search only"],
     ),
     "C02": dict(
@@ -40,21 +40,21 @@ PROPS = {
                            "tbl_succeeded_doors_task", "tbl_failure_covered", "tbl_failure_canceling",
                            "tbl_failed_request_total", "C10_never_succeeds"]},
         keys=["status", "sequence", "staged"], offers="ids",
-        prof=dict(), hist=dict(p_pause=0.15, p_cancel=0.08, p_task_pause=0.05),
+        prof=dict(p_badexpr=0.25), hist=dict(p_pause=0.15, p_cancel=0.08, p_task_pause=0.1, p_lifecycle=0.3),
         monitor="C02", unproven=["state invariant paused|canceled => no active record is proved only at the doors (table level), not as a history invariant"],
     ),
     "C03": dict(
         title="no stuck workflow",
         theorems={STATUS: ["tbl_succeeded_doors_task", "tbl_failure_covered", "tbl_task_targets_have_events", "tbl_item_targets_have_events", "tbl_failed_request_total"], ERRORS: ["C11_update_never_raises_expr"]},
         keys=["status", "staged", "sequence"], offers="ids",
-        prof=dict(), hist=dict(p_pause=0.1, p_cancel=0.05, p_rerun=0.4, p_task_pause=0.05),
+        prof=dict(), hist=dict(p_pause=0.1, p_cancel=0.05, p_rerun=0.4, p_task_pause=0.05, p_lifecycle=0.3),
         monitor="C03", unproven=["C03_quiescent_resting (history invariant) is not proved; search only"],
     ),
     "C04": dict(
         title="terminal statuses are final",
         theorems={STATUS: ["C04_failed_final", "C04_canceled_final", "C04_succeeded_final", "C04_report_keeps_terminal", "tbl_succeeded_wf"], NEXT: ["C04_no_offer_when_succeeded_or_canceled", "C04_failed_offers_only_run_on_fail", "C04_rejected_request_no_effect", "tbl_valid_request_applies"]},
         keys=["status", "staged", "sequence", "tasks", "contexts", "routes"], offers="ids",
-        prof=dict(), hist=dict(p_pause=0.05, p_cancel=0.05), monitor="C04", unproven=[],
+        prof=dict(), hist=dict(p_pause=0.05, p_cancel=0.05, p_any_req=0.5, p_dup_report=0.1, p_fail=0.35), monitor="C04", unproven=[],
     ),
     "C05": dict(
         title="persist/restore unobservable",
@@ -74,14 +74,14 @@ PROPS = {
         title="join runs once and only when satisfied",
         theorems={JOIN: ["C07_ready_iff_satisfied", "C07_barrier_requirement", "C07_unreachable_fails", "C07_check_statuses"], NEXT: ["C01_offer_from_staged"]},
         keys=["status", "staged", "errors", "sequence"], offers="ids",
-        prof=dict(p_join=0.9, p_join_count=0.3, max_tasks=7), hist=dict(p_fail=0.3, p_cancel=0.03),
+        prof=dict(p_join=0.7, p_join_count=0.3, max_tasks=7, p_template=0.35), hist=dict(p_fail=0.3, p_cancel=0.03),
         monitor="C07", unproven=["C07_once (at most one start per satisfaction) not proved; count joins: known finding D2"],
     ),
     "C08": dict(
         title="outcome independent of completion order",
         theorems={NEXT: ["C01_offer_from_staged"], JOIN: ["C19_inbound_status_perm"]},
         keys=["status", "sequence"], offers="ids",
-        prof=dict(p_loop=0.0, p_retry=0.0, p_items=0.0, p_badexpr=0.0), hist=dict(fixed_outcomes=True, p_lifecycle=0.0, p_odd_terminal=0.0),
+        prof=dict(p_loop=0.0, p_retry=0.0, p_items=0.0, p_badexpr=0.0), hist=dict(fixed_outcomes=True, p_lifecycle=0.4, p_odd_terminal=0.0),
         monitor="C08", unproven=["order independence of whole runs (C08_routefree, C08_commute) is relational and not proved; search only"],
     ),
     "C09": dict(
@@ -90,7 +90,7 @@ PROPS = {
                            "tbl_dormant_doors_wf", "tbl_failure_covered"],
                   NEXT: ["C09_no_offer_while_pausing_or_paused"]},
         keys=["status", "staged", "sequence", "errors", "output"], offers="ids",
-        prof=dict(), hist=dict(p_pause=0.25, p_task_pause=0.05), monitor="C09",
+        prof=dict(p_badexpr=0.15), hist=dict(p_pause=0.25, p_task_pause=0.05), monitor="C09",
         unproven=["C09_transparent (twin-run equality) is relational and not proved; search only"],
     ),
     "C10": dict(
@@ -99,7 +99,7 @@ PROPS = {
                            "tbl_dormant_doors_task", "tbl_dormant_doors_wf", "tbl_active_doors_wf"],
                   NEXT: ["C10_no_offer_after_cancel"]},
         keys=["status", "staged", "sequence", "errors", "output"], offers="ids",
-        prof=dict(), hist=dict(p_cancel=0.25, p_pause=0.08), monitor="C10", unproven=[],
+        prof=dict(p_template=0.4), hist=dict(p_cancel=0.3, p_pause=0.08, p_fail=0.4), monitor="C10", unproven=[],
     ),
     "C11": dict(
         title="expression errors contained",
@@ -112,7 +112,7 @@ PROPS = {
         title="with-items: every item once, in order, within the limit",
         theorems={ITEMS: ["C12_window_bound", "C12_window_total", "C12_window_unset_only", "C12_window_in_order", "C12_no_concurrency_all_unset", "C12_item_success_unique", "C12_completed_needs_dormant"], NEXT: ["C09_no_offer_while_pausing_or_paused", "C10_no_offer_after_cancel"]},
         keys=["status", "staged", "sequence"], offers="full",
-        prof=dict(p_items=0.9, max_tasks=3, p_retry=0.1), hist=dict(p_fail=0.2, p_pause=0.1, p_cancel=0.05),
+        prof=dict(p_items=0.9, max_tasks=3, p_retry=0.1), hist=dict(p_fail=0.3, p_pause=0.1, p_cancel=0.05, p_rerun=0.5),
         monitor="C12", unproven=["C12_all_offered (progress) not proved; result ordering is assembled by the provider"],
     ),
     "C13": dict(
@@ -143,7 +143,7 @@ PROPS = {
     "C17": dict(
         title="rerun re-executes only what was asked and converges",
         theorems={RERUN: ["C17_reject_active", "C17_reject_unknown", "C17_accepted_resuming", "C17_only_completed_accepted"], HISTORY: ["C18_extends_rerun"]},
-        keys=None, offers="ids", prof=dict(p_items=0.15), hist=dict(p_fail=0.45, p_rerun=0.9), monitor="C17",
+        keys=None, offers="ids", prof=dict(p_items=0.15), hist=dict(p_fail=0.45, p_rerun=0.9, p_rerun_any=0.1, p_pause=0.1), monitor="C17",
         unproven=["convergence to the clean twin is relational; search only"],
     ),
     "C18": dict(
@@ -155,7 +155,7 @@ PROPS = {
     "C19": dict(
         title="conducting deterministic; next is a pure query",
         theorems={NEXT: ["C19_next_no_status_change_when_not_running", "C01_no_offer_unless_running_or_remediation"], SITES: ["setSites_covered"], JOIN: ["C19_inbound_status_perm"]},
-        keys=None, offers="full", prof=dict(), hist=dict(p_next2=0.5, p_pause=0.05), monitor="C19",
+        keys=None, offers="full", prof=dict(), hist=dict(p_fail=0.3, p_persist=0.15, p_rerun=0.3, p_dup_report=0.15), monitor="C19",
         unproven=["C19_next_idempotent not proved; hash-seed independence is outside any model, multi-seed replay only"],
     ),
     "C20": dict(
